@@ -62,7 +62,11 @@ _tname = st.sampled_from(['ValueError', 'KeyError', 'ZeroDivisionError', 'mod.Cu
                           'json.decoder.JSONDecodeError', 'E'])
 _msgline = st.one_of(
     st.sampled_from(['boom', 'division by zero', "'k'", 'a: b', 'x: y: z', 'File "x", line 3, in y', '  indented', 'caf\xe9 \u4e2d', '"quoted"',
-                     "it's", '(1, 2)', ':', 'ends with colon:', 'Traceback (most recent call last):', '~~^^', '0']),
+                     "it's", '(1, 2)', ':', 'ends with colon:', 'Traceback (most recent call last):', '~~^^', '0',
+                     # message lines that look like the interpreter's own banners
+                     'The above exception was the direct cause of the following exception:',
+                     'During handling of the above exception, another exception occurred:',
+                     '  [Previous line repeated 3 more times]']),
     st.text(alphabet='abc :"\'(),.x1\xe9', min_size=1, max_size=12),
 )
 
@@ -180,7 +184,7 @@ def _is_marker_line(case, lines, i):
 # (b) generated programs
 
 _STYLES = ['direct', 'direct', 'lambda', 'listcomp', 'method', 'multistmt', 'multiline', 'recursive', 'eval', 'exec', 'genexpr', 'nested_def',
-           'reraise', 'finally', 'with', 'registered', 'registered', 'mutual']
+           'reraise', 'finally', 'with', 'registered', 'registered', 'mutual', 'loader', 'loader']
 _EXC = ['ValueError', 'KeyError', 'TypeError', 'ZeroDivisionError', 'Custom', 'CustomStr', 'Local', 'CustomMain', 'CustomPkg', 'IndexError', 'RuntimeError']
 _MSG = ['empty', 'one', 'multi', 'nonstr', 'two_args', 'colon', 'unicode', 'none_arg']
 
@@ -264,6 +268,16 @@ def gen_program(case):
                   "    ns = {}",
                   "    exec(compile(src, name, 'exec'), ns)",
                   "    return ns['relay'](x, %s)" % nxt]
+        elif style == 'loader':
+            # code whose source is only reachable through the PEP 302 __loader__.get_source() of its globals (no file, no
+            # linecache entry, no __spec__): zipimport-style modules and old-style import hooks
+            L += ["    src = 'def relay(x, nxt):\\n    y = x\\n    return nxt(y)\\n'",
+                  "    class Loader:",
+                  "        def get_source(self, name):",
+                  "            return src",
+                  "    ns = {'__name__': 'loader_only_mod_%d', '__loader__': Loader()}" % i,
+                  "    exec(compile(src, 'loader-only-source-%d.py', 'exec'), ns)" % i,
+                  "    return ns['relay'](x, %s)" % nxt]
         elif style == 'nested_def':
             L += ['    def inner(y):', '        return %s(y)' % nxt, '    return inner(x)']
         else:
@@ -315,15 +329,24 @@ def run_b(case):
             raise HarnessError('generated program did not raise')
         # skip the harness frame (run_b -> entry)
         tb = tb.tb_next
-        std_frames = [(fs.filename, fs.lineno, fs.name, (fs.line or '').strip()) for fs in traceback.extract_tb(tb)]
-        std_text = ''.join(traceback.format_exception(et, ev, tb))
-        depth = len(std_frames)
-        out.nontrivial = depth >= 3
+        def forget_loader_sources():
+            # source lines obtained through a __loader__ are cached by linecache under the file name: drop them, so that
+            # boltons and the traceback module each have to find the source on their own
+            for k in list(linecache.cache):
+                if k.startswith('loader-only-source-'):
+                    del linecache.cache[k]
         desc = 'program with chain %r raising %s(%s)' % ([s for s, _ in case['chain']], case['exc'], case['msg'])
+        forget_loader_sources()
         ti = _call(TracebackInfo.from_traceback, tb)
         if ti[0] != 'ok':
             return out.fail('c16.b.from_traceback-raises', '%s: TracebackInfo.from_traceback -> %r' % (desc, ti))
         got_frames = [(cp.module_path, cp.lineno, cp.func_name, str(cp.line).strip() if cp.line is not None else '') for cp in ti[1].frames]
+        forget_loader_sources()
+        std_frames = [(fs.filename, fs.lineno, fs.name, (fs.line or '').strip()) for fs in traceback.extract_tb(tb)]
+        std_text = ''.join(traceback.format_exception(et, ev, tb))
+        depth = len(std_frames)
+        out.nontrivial = depth >= 3
+        forget_loader_sources()
         if got_frames != std_frames:
             i = next((j for j in range(min(len(got_frames), len(std_frames))) if got_frames[j] != std_frames[j]), min(len(got_frames), len(std_frames)))
             return out.fail('c16.b.frames', '%s: frame #%d is %r, traceback.extract_tb gives %r (%d vs %d frames)' % (
@@ -373,6 +396,8 @@ def run_b(case):
             return out.fail('c16.b.parse-own-output', '%s: from_string(get_formatted()) recovers frames %r..., expected %r...' % (desc, pf[:2], std_frames[:2]))
         if any(s in ('eval', 'exec') for s, _ in case['chain']):
             out.label('frame_without_source')
+        if any(s == 'loader' for s, _ in case['chain']):
+            out.label('source_via___loader__')
         if 'Previous line repeated' in std_text:
             out.label('interpreter_collapses_repeats')
         if depth > 1000:
